@@ -664,7 +664,14 @@ func init() {
 		w := x.constInt(args[1], "shift")
 		mask := x.u64(args[2])
 		width := bits.Len64(mask)
-		if mask == 0 || mask&(mask+1) != 0 {
+		if mask == 0 {
+			// every digit is zero
+			for n := 0; n < p1.Len; n++ {
+				x.setCell(p2.Obj, p2.Off+n, x.ts.BV(0, 64))
+			}
+			return nil, true
+		}
+		if mask&(mask+1) != 0 {
 			panic(x.errf("MaskVec stub: mask %d is not 2^k-1", mask))
 		}
 		st := x.feS()
